@@ -31,10 +31,10 @@ CFG = {
             "3..64 with all 8 UV-option combinations, both boxes with none/default/random UVs on even-integer (exact) and "
             "random positive extents, rejected parameter pairs, volume-convergence sequences, plus n sampled cases "
             "(counts up to 80x80 / 1600 sides in quick, 128x128 / 2560 sides in thorough, extreme aspect ratios, log-uniform sizes 1e-3..1e3; "
-            genuinely large counts at and just above 2^14, 2^15, 2^16 vertices for sphere/unwelded/hemisphere in square, "
+            "genuinely large counts at and just above 2^14, 2^15, 2^16 vertices for sphere/unwelded/hemisphere in square, "
             "many-rows and many-columns shapes and cylinders with 2^12..2^16 sides (fingerprints of index and class lists vs the "
             "model + harness oracles; quick: one shape per family and size, thorough: all shapes and the last size below each power of two); "
-            "Cone (a lateral surface without base, not one of the solids) is only recorded; distinct by "
+            "Cone (a lateral surface without base, not one of the solids) is only recorded); distinct by "
             "parameters; non-trivial = the constructor returned at least one triangle",
     "trusted": ["positions of sphere/cylinder/hemisphere are math.Sin/Cos values: signed volume vs the inscribed "
                 "polyhedron's closed-form volume (1e-9 relative), face orientation against an interior point, vertex "
